@@ -38,7 +38,7 @@ struct socket_peer {
 };
 
 struct socket_peer *alloc_jet_peer(void);
-void init_socket_peer(struct socket_peer *p, struct buffered_reader *reader, bool is_local_connection);
+int init_socket_peer(struct socket_peer *p, struct buffered_reader *reader, bool is_local_connection);
 void free_peer_on_error(void *context);
 
 #endif
